@@ -2,13 +2,20 @@
 # M-DIR — the ignore-directive comment parser (`src/ignore_directives.rs:125-174`)
 
 A literal transcription of `parse_ignore_comment`, including tiny leftmost-match
-implementations of the two fixed regexes `\s*--.*` and `,\s*|\s`, plus
+implementations of the two fixed regexes `\s*--.*` and `,\s*|\s` (structurally recursive, so that they also
+evaluate inside the kernel), plus
 `parse_file_ignore_directives` / `parse_line_ignore_directives` over an abstract
 comment list (comment attachment is swc's and is a parameter).
 
 Text is `List Char`.  White space is Unicode `White_Space`, which is what Rust's
 `char::is_whitespace` (`trim`, `split_whitespace`) and the regex crate's `\s` use.
 -/
+open Lean in
+/-- `chars! "abc"` = `['a', 'b', 'c']` (string literals do not reduce in the kernel; char lists do) -/
+macro "chars!" s:str : term => do
+  let elems := s.getString.toList.toArray.map fun c => (Syntax.mkCharLit c : TSyntax `term)
+  `([$elems,*])
+
 namespace DL.Dir
 
 /-- Unicode `White_Space` (25 code points). -/
@@ -29,53 +36,31 @@ def firstWord (t : List Char) : Option (List Char) :=
   | [] => none
   | r => some (r.takeWhile (fun c => !isWs c))
 
-/-- try to match the regex `\s*--.*` anchored at the head of `t`; returns what follows the match.
-`\s*` is greedy but `-` is not white space, so no backtracking can help; `.` is "anything but `\n`". -/
-def matchReason (t : List Char) : Option (List Char) :=
-  match t.dropWhile isWs with
-  | '-' :: '-' :: r => some (r.dropWhile (fun c => c != '\n'))
-  | _ => none
+/-- does the regex `\s*--` match anchored at the head of `t`?  (`\s*` is greedy, but `-` is not white space, so
+backtracking cannot help.) -/
+def startsReason : List Char → Bool
+  | [] => false
+  | c :: t => if isWs c then startsReason t else (c == '-' && t.head? == some '-')
 
-theorem dropWhile_length_le (p : Char → Bool) (t : List Char) : (t.dropWhile p).length ≤ t.length := by
-  induction t with
-  | nil => simp
-  | cons c t ih => simp only [List.dropWhile]; split <;> simp <;> omega
-
-theorem matchReason_length {t r : List Char} (h : matchReason t = some r) : r.length + 2 ≤ t.length := by
-  unfold matchReason at h
-  split at h
-  · rename_i r' heq
-    injection h with h; subst h
-    have h1 := dropWhile_length_le isWs t
-    have h2 := dropWhile_length_le (fun c => c != '\n') r'
-    rw [heq] at h1; simp at h1; omega
-  · cases h
-
-/-- `IGNORE_COMMENT_REASON_RE.replace_all(text, "")`: leftmost non-overlapping matches removed. -/
-def stripReason (t : List Char) : List Char :=
-  match t with
+/-- `IGNORE_COMMENT_REASON_RE.replace_all(text, "")` for the regex `\s*--.*`: the leftmost match starts at the
+first position where `\s*--` matches and `.*` then runs to the end of the text.
+**Domain restriction:** `.` does not match `\n`; the text of a *line* comment never contains a line terminator
+(swc's lexer ends the comment there), so on every reachable input the match extends to the end of the text and
+nothing is left to scan.  The model is stated for that domain. -/
+def stripReason : List Char → List Char
   | [] => []
-  | c :: t' =>
-    match h : matchReason (c :: t') with
-    | some rest => stripReason rest
-    | none => c :: stripReason t'
-termination_by t.length
-decreasing_by
-  · have := matchReason_length h; simp at this ⊢; omega
-  · simp
+  | c :: t => if startsReason (c :: t) then [] else c :: stripReason t
 
-/-- `IGNORE_COMMENT_CODE_RE.replace_all(text, ",")` for the regex `,\s*|\s`. -/
-def replaceSeps (t : List Char) : List Char :=
-  match t with
-  | [] => []
-  | c :: t' =>
-    if c = ',' then ',' :: replaceSeps (t'.dropWhile isWs)
-    else if isWs c then ',' :: replaceSeps t'
-    else c :: replaceSeps t'
-termination_by t.length
-decreasing_by
-  all_goals simp
-  have := dropWhile_length_le isWs t'; omega
+/-- `IGNORE_COMMENT_CODE_RE.replace_all(text, ",")` for the regex `,\s*|\s`; `afterComma` = we are inside the
+`\s*` that follows a matched comma. -/
+def replaceSepsAux : Bool → List Char → List Char
+  | _, [] => []
+  | afterComma, c :: t =>
+    if c = ',' then ',' :: replaceSepsAux true t
+    else if isWs c then (if afterComma then replaceSepsAux true t else ',' :: replaceSepsAux false t)
+    else c :: replaceSepsAux false t
+
+def replaceSeps (t : List Char) : List Char := replaceSepsAux false t
 
 /-- `str::split(',')` -/
 def splitComma : List Char → List (List Char)
